@@ -375,9 +375,16 @@ func WorkerMain(id, tier string, seed uint64, shard, shards, from int, out strin
 	}
 	sem := make(chan struct{}, par)
 	var wg sync.WaitGroup
+	// once any worker has recorded a violation the run's verdict is settled: the remaining cases are skipped (under a
+	// property-breaking change every further case may run into its watchdog). VERIF_NO_EARLY_STOP=1 explores on.
+	stop := filepath.Join(filepath.Dir(out), "STOP")
+	earlyStop := os.Getenv("VERIF_NO_EARLY_STOP") == ""
 	for i := from; i < n; i++ {
 		if i%shards != shard {
 			continue
+		}
+		if _, err := os.Stat(stop); err == nil && earlyStop {
+			break
 		}
 		sem <- struct{}{}
 		wg.Add(1)
@@ -392,6 +399,9 @@ func WorkerMain(id, tier string, seed uint64, shard, shards, from int, out strin
 			select {
 			case r := <-done:
 				write(map[string]interface{}{"end": i, "result": r})
+				if r.Verdict == Violated && earlyStop {
+					os.WriteFile(stop, []byte(fmt.Sprintf("case %d\n", i)), 0o644)
+				}
 			case <-time.After(to):
 				buf := make([]byte, 1<<20)
 				buf = buf[:runtime.Stack(buf, true)]
@@ -885,6 +895,9 @@ func finish(ck *Check, o RunOpts, known *KnownFile, results []*CaseResult, crash
 	}
 	if !floorOK {
 		ev["coverage_floor_missed"] = floorMsg
+	}
+	if _, err := os.Stat(filepath.Join(o.Root, ".work", id, "STOP")); err == nil {
+		ev["stopped_early"] = "a violation was recorded: the cases not yet started were skipped"
 	}
 	b, _ := json.MarshalIndent(ev, "", " ")
 	os.WriteFile(filepath.Join(evDir, id+".json"), b, 0o644)
